@@ -20,8 +20,8 @@ CHECKS = {
          "the resharing theorems are C04's (Props/C04b); payload validity is abstracted at this level"),
  "C08": ("Lean theorems: emissions are exactly the canonical per-round prefix once each in order, a round advances only when every requirement is stored with the right flag, wrong-channel copies never advance a round, WaitingFor = exact awaited set for tables without early-return rounds (with the pre-repair over-report witness); tables, routing and constants regenerated from the running code are proved equal to the model's by decide; tie = engine traces with flag-flipped copies injected before/instead/after, routing and wire round-trip assertions on every emitted message",
          "secrecy of message contents is not modelled (only routing discipline); protobuf codec not modelled"),
- "C09": ("Lean theorems: critical sections serialise (any interleaving of k callers' deliveries equals the sequential delivery of the concatenation), queries are transparent and exact, end emitted once; runtime part: whole protocol runs with every Start/Update/WaitingFor call in its own goroutine under the Go race detector, plus gated runs releasing pre-Start deliveries at the same instant as Start()",
-         "the Go memory model and scheduler are runtime: the race detector observes only the executed interleavings (partial); the lock discipline itself is not extracted from the source"),
+ "C09": ("Lean theorems: critical sections serialise (any interleaving of k callers' deliveries equals the sequential delivery of the concatenation), queries are transparent and exact, end emitted once; runtime part: whole protocol runs with every Start/Update/WaitingFor call in its own goroutine under the Go race detector, plus gated runs releasing pre-Start deliveries at the same instant as Start(); source-derived part (Props/C09b): lock-discipline facts regenerated from tss/party.go and the six local_party.go on every run (nothing touches the party before the lock, no TryLock, every exit releases it, the wrappers only delegate) are proved to have the shape the serialisation theorems assume",
+         "the Go memory model and scheduler are runtime: the race detector observes only the executed interleavings (partial); the lock-discipline facts are syntactic (a go/ast pass over the named functions), not a proof about the Go code"),
  "C10": ("Lean completeness theorems for the proof systems under explicit good-coin predicates; tie = cross-verification: Go-made proofs judged by the Lean verifiers and Lean-made proofs judged by the Go verifiers, plus wire round-trips",
          "completeness is proved for the model; a negligible set of coins (explicit predicate) makes honest proofs fail"),
  "C11": ("Lean theorems: for every verifier, acceptance implies every guard and every verification equation (ranges, gcds, small-prime table, Jacobi, bit lengths, the point relation), plus exact extraction lemmas (Schnorr special soundness, dln both-bits, plaintext/multiplier/mask bounds); tie = both verifiers judge false-statement families produced by the library's provers on bad witnesses and by harness-built transcripts",
